@@ -1,0 +1,11 @@
+//go:build verif
+
+// Contracts for package channelmonitor (comment-only; compiled only with -tags verif).
+package channelmonitor
+
+//@ func (*channelmonitor.Monitor).AddPushChannel {C14}
+//@   opaque -- boundary for callers in impl: the call is logged, nothing is assumed about its result
+//@ func (*channelmonitor.Monitor).AddPullChannel {C14}
+//@   opaque
+//@ func (*channelmonitor.monitoredChannel).Shutdown {C14}
+//@   opaque
